@@ -89,6 +89,12 @@ _FLIP = {ast.Lt: ast.Gt, ast.Gt: ast.Lt, ast.LtE: ast.GtE, ast.GtE: ast.LtE,
          ast.Eq: ast.Eq, ast.NotEq: ast.NotEq}
 
 
+def _flatten_or(e):
+    if isinstance(e, ast.BinOp) and isinstance(e.op, ast.BitOr):
+        return _flatten_or(e.left) + _flatten_or(e.right)
+    return [e]
+
+
 def _is_int_const(n):
     return isinstance(n, ast.Constant) and isinstance(n.value, int) \
         and not isinstance(n.value, bool)
@@ -129,6 +135,33 @@ def _m(p, s, b):
     if isinstance(p, ast.AST):
         if type(p) is not type(s):
             return False
+        if isinstance(p, ast.BinOp) and isinstance(p.op, ast.BitOr) \
+                and isinstance(s, ast.BinOp) and isinstance(s.op, ast.BitOr):
+            # a set of flags: `A | B | C` in any order and grouping
+            po, so = _flatten_or(p), _flatten_or(s)
+            if len(po) == len(so) and len(po) > 2:
+                saved = dict(b)
+                rest = list(so)
+                okall = True
+                for x in sorted(po, key=lambda e: isinstance(
+                        e, ast.Name) and e.id.startswith((_MV, _MVS))):
+                    hit = None
+                    for y in rest:
+                        trial = dict(b)
+                        if _m(x, y, trial):
+                            hit = (y, trial)
+                            break
+                    if hit is None:
+                        okall = False
+                        break
+                    rest.remove(hit[0])
+                    b.clear()
+                    b.update(hit[1])
+                if okall:
+                    return True
+                b.clear()
+                b.update(saved)
+                return False
         if isinstance(p, ast.BinOp) and isinstance(p.op, _COMMUTATIVE) \
                 and type(p.op) is type(s.op) and (
                     _is_int_const(p.left) or _is_int_const(p.right)):
